@@ -157,13 +157,57 @@ def run(ctx):
         if problem:
             rp = C.write_replay(prop, {"kind": "session over the pipe", "lines": script, "end": end, "problem": problem})
             violations.append({"replay": rp})
+    # sessions that keep a search RUNNING while more commands arrive (go during a search is refused, stop ends it,
+    # the next go waits for the old thread): whatever the order, the engine must still answer isready and obey quit
+    busy_words = ["go infinite", "go depth 1", "go nodes 50", "go", "stop", "isready", "position startpos", "ucinewgame",
+                  "position startpos moves e2e4", "go movetime 5", "xyzzy", "go depth", "setoption name Hash value 1"]
+    fixed_busy = [["position startpos", "go infinite", "go depth 1", "go depth 1"],
+                  ["go infinite", "go infinite", "stop", "go depth 1"],
+                  ["go", "go", "go", "stop", "stop", "go nodes 50"],
+                  ["go infinite", "position startpos moves e2e4", "go depth 1", "stop", "go depth 1", "go depth 1"]]
+    nbusy = 10 if ctx["tier"] == "quick" else 120
+    scripts = fixed_busy + [[rng.choice(busy_words) for _ in range(rng.randrange(3, 12))] for _ in range(nbusy)]
+    for script in scripts:
+        eng_p = uciproc.Engine()
+        problem = None
+        try:
+            for l in script:
+                eng_p.send(l)
+            before = len(eng_p.lines())
+            eng_p.send("isready")
+            if eng_p.wait_for(lambda x: x == "readyok", 10, start=before) is None:
+                problem = "no readyok within 10 s while/after searching (alive=%s)" % eng_p.alive()
+            else:
+                eng_p.send("stop")
+                b2 = len(eng_p.lines())
+                eng_p.send("isready")
+                if eng_p.wait_for(lambda x: x == "readyok", 10, start=b2) is None:
+                    problem = "no readyok within 10 s after stop (alive=%s)" % eng_p.alive()
+            rc, dt = eng_p.finish(timeout=5)
+            if rc is None:
+                problem = problem or "did not exit within 5 s after quit"
+            elif rc != 0:
+                problem = problem or "exit status %s after quit" % rc
+            panics = [x for x in eng_p.err_lines() if "panicked" in x]
+            if panics:
+                problem = problem or "panic on stderr: %s" % panics[0]
+        finally:
+            eng_p.kill()
+        sess_done += 1
+        if problem:
+            rp = C.write_replay(prop, {"kind": "session over the pipe with a search kept running", "lines": script + ["isready", "stop", "isready"],
+                                       "end": "quit", "problem": problem})
+            violations.append({"replay": rp})
+            break
+    cov["busy_sessions"] = len(scripts)
     cov["pipe_sessions"] = sess_done
     cov["evaluations"] = len(lines) + sess_done
     cov["distinct_nontrivial"] = len(lines) - 1
     cov["rule"] = ("every token sequence of length <= 2 over a 33-word UCI vocabulary (incl. junk, out-of-range and signed "
                    "numbers) and every length-3 sequence starting with a parsing command (quick) / any word (thorough), plus a "
                    "grammar stream (valid commands with arguments dropped, duplicated, swapped, replaced): engine parser result vs "
-                   "model, no panic; random sessions over the pipe ended by quit / closed stdin: readyok, exit status 0, exit within 5 s")
+                   "model, no panic; random sessions over the pipe ended by quit / closed stdin: readyok, exit status 0, exit within 5 s; "
+                   "sessions that keep a search running while go / stop / position / junk keep arriving: readyok during and after, quit obeyed")
     cov["samples"].append({"line": lines[-3], "engine": eng[-3] if eng else None})
     return SP.finish(prop, gate, violations, cov)
 
